@@ -3,11 +3,11 @@ CONSTANTS
   GW = 1
   GI = 2
   RI = 4
-  Routes <- R_none
-  SR <- SR_both
-  INH = FALSE
+  Routes <- R_first
+  SR <- SR_one
+  INH = TRUE
   Windows <- W_rec
-  Used = {"A1", "A2"}
+  Used = {"A1", "A4"}
   SilLib = {"S1"}
   MaxTime = 8
   MaxPosts = 2
